@@ -139,7 +139,10 @@ class Frame(BaseModel):
         if isinstance(self.payload, DataPacket):
             payload_size = self.payload.get_packet_size()
 
-        return float(len(self.model_dump_json().encode("utf-8"))) + payload_size
+        # the timestamps are bookkeeping of the simulator, not data on the wire: their serialised length depends on the
+        # wall clock (no fractional part when the microsecond is 0), which must not leak into the frame size
+        serialised = self.model_dump_json(exclude={"sent_timestamp", "received_timestamp"})
+        return float(len(serialised.encode("utf-8"))) + payload_size
 
     @property
     def size_Mbits(self) -> float:  # noqa - Keep it as MBits as this is how they're expressed
